@@ -6,7 +6,7 @@ sys.path.insert(0, os.path.dirname(os.path.dirname(os.path.abspath(__file__))))
 import coqreplay as _coqreplay
 
 PROP = {
-    "coq": ["C02", "Findings", "C02s", "C02t", "C05t", "C06t", "C01t"],
+    "coq": ["C02", "Findings", "C02s", "C02t", "C05t", "C06t", "C01t", "C06u"],
     "pre": [regen_src],
     "extra": [_coqreplay.replay_cc, replay_src({'explen', 'cc'}, per_scn=80)],
     "exhaustive": False,
